@@ -570,6 +570,18 @@ def return_locals(f):
                     if o["k"] in ("move", "copy") and not o["place"]["proj"] and o["place"]["local"] not in out:
                         out.add(o["place"]["local"])
                         changed = True
+                    elif o["k"] in ("move", "copy") and [e["k"] for e in o["place"]["proj"]] == ["downcast", "field"] and o["place"]["local"] not in out:
+                        # `result = (x as Some).0` with x = Some(y) built just before (an expanded `.then(..).flatten()`)
+                        x = o["place"]["local"]
+                        for b2 in f.blocks:
+                            for s2 in b2["stmts"]:
+                                if s2["k"] == "assign" and s2["place"]["local"] == x and not s2["place"]["proj"] and s2["rv"]["k"] == "aggregate" \
+                                        and s2["rv"].get("variant") == "Some" and s2["rv"]["ops"] and s2["rv"]["ops"][0]["k"] in ("move", "copy") \
+                                        and not s2["rv"]["ops"][0]["place"]["proj"]:
+                                    y = s2["rv"]["ops"][0]["place"]["local"]
+                                    if y not in out:
+                                        out.add(y)
+                                        changed = True
     return out
 
 
@@ -937,6 +949,27 @@ def r_serde(ctx, view):
     vp = view.vp
     fx = view.fx
     ctx.cur = view
+    # the reader touches the map only by inserting the pair it has just read: no other entry is written
+    vs = prog.fn("<store::serde::StoreVisitor as Visitor>::visit_seq")
+    if vs is not None:
+        foreign = []
+        for g in prog.family(vs.key):
+            for ev in fx.events(g):
+                if ev["kind"] in ("mw", "mwraw", "mr") and ev.get("comp") == "map":
+                    nm = ev.get("name") or ""
+                    mc = ev.get("mclass") or ""
+                    if ev["kind"] == "mr" and nm not in ("last_mut", "first_mut", "get_index_mut", "get_index_mut2", "get_mut", "get_full_mut", "get_full_mut2", "iter_mut", "values_mut"):
+                        continue
+                    if nm == "insert" and mc == "grow":
+                        a = fx.args_vp(ev["ci"])
+                        if len(a) == 3 and all(any(x[0] == "call" and x[1].endswith("next_element") for x in walk(y)) for y in a[1:]):
+                            continue
+                    if nm in ("reserve", "with_capacity_and_hasher", "with_hasher", "len", "capacity", "contains_key", "get", "get_full", "get_index_of"):
+                        continue
+                    foreign.append("%s line %d" % (nm or mc, ev["span"]["line"]))
+        ctx.ob("R-SERDE", "visit_seq:writes-only-the-pair-read", not foreign, vs.loc(),
+               "the only map write is insert(item, priority) of the pair just read" if not foreign else
+               "other accesses that can write map entries: %s" % "; ".join(foreign))
     ser = prog.fn("<store::Store as Serialize>::serialize")
     ctx.anchor("Serialize for Store (serde feature)", ser is not None)
     names = [t["func"]["name"] for bb, t in ser.calls() if "func" in t]
